@@ -222,8 +222,71 @@ def dataset_case(ctx, rng, idx):
     if kind == 'hierarchical' and case.h.n_hdim == case.h.n_dim and \
             case.n_ids >= 1 and idx % 2 == 0:
         _readback(ctx, rng, case, post, ds, chains, feats)
+    elif kind == 'hierarchical' and case.n_ids >= 1 and all(
+            l.kind in 'GLTP' and not l.cov for l in case.leaves) and any(
+            l.kind == 'P' for l in case.leaves) and not case.reduced:
+        _readback_mixed(ctx, rng, case, post, ds, chains, feats)
     if kind == 'individual':
         _readback_individual(ctx, rng, case, post, feats)
+
+
+def _readback_mixed(ctx, rng, case, post, ds, chains, feats):
+    """a dataset with individual-level AND population-level (pooled)
+    variables, read by a posterior predictive model of the individuals
+    through a param_map: every parameter vector handed to the predictive
+    model is ONE joint draw (same chain, same draw) of the chosen
+    individual's and the pooled parameters, each from its own column"""
+    c15._patch()
+    pm = chi.PredictiveModel(
+        toys.ToyMulti(case.n_out),
+        [getattr(chi, e)() for e in case.cases[0].em_names])
+    if case.fix_sigma:
+        names = case.full_names[case.n_mech:]
+        pm.fix_parameters(dict(zip(names, case.sigma_values)))
+    pos = _positions(post, 'hierarchical')
+    ids = post.get_id(unique=True)
+    who = ids[int(rng.integers(len(ids)))]
+    pmap, want_cols = {}, []
+    gd = 0
+    for l in case.leaves:
+        for j in range(l.n_dim):
+            dn = case.dim_names[gd]
+            if l.kind == 'P':
+                var = 'Pooled ' + dn
+                hits = [k for k, (n_, i_) in enumerate(pos)
+                        if n_ == var and i_ is None]
+                pmap[dn] = var
+            else:
+                hits = [k for k, (n_, i_) in enumerate(pos)
+                        if n_ == dn and i_ == who]
+            if len(hits) != 1:
+                ctx.reject('no unique column for ' + dn)
+                return
+            want_cols.append(hits[0])
+            gd += 1
+    feats = dict(feats, readback='mixed levels')
+    try:
+        ppm = chi.PosteriorPredictiveModel(pm, ds, param_map=pmap)
+        df, calls = c15._tap(lambda: ppm.sample(
+            [1.0], n_samples=8, individual=who,
+            seed=int(rng.integers(1000))))
+    except Exception as e:      # noqa
+        ctx.violation_exc('posterior_predictive_readback_raises', e,
+                          {'case': feats, 'param_map': pmap}, feats)
+        return
+    for vec, _ in calls:
+        ctx.count('readback_draws')
+        ctx.count('mixed_level_readback_draws')
+        c = set(int(v) // 1000000 for v in vec)
+        d = set(int(v) % 1000000 // 1000 for v in vec)
+        k = [int(v) % 1000 for v in vec]
+        if len(c) != 1 or len(d) != 1 or k != want_cols:
+            ctx.violation('readback_selects_matching_columns',
+                          'posterior_predictive_not_a_joint_draw',
+                          {'chains': sorted(c), 'draws': sorted(d),
+                           'columns': k, 'expected_columns': want_cols,
+                           'param_map': pmap}, feats)
+            return
 
 
 def _readback_individual(ctx, rng, case, post, feats):
